@@ -10,7 +10,7 @@ use crate::model::member::member;
 use crate::props::progdiff;
 use crate::vrlx;
 
-pub const RULE: &str = "cases = generated programs dense in `a ?? b` (chains, nesting, effects on both sides) and `ok, err = e` (targets: variables, event and metadata paths, `_`) where a/e are typed calls and divisions fed by event fields that make them fail in roughly half of the cases, plus a generated event; real compiler+runtime vs reference interpreter: value of the expression, absence of the right operand's effects when the left succeeded, contents of ok/err (err is compared as 'a string' since message texts are not modelled; the default stored in ok is compared exactly with the documented default of the generator's known result type of e — 0, 0.0, \"\", false, [], {} — and left open when that type is not a single kind). Additionally whenever `.ok` is a target, its final value must be a member of the compiler's final type of `.ok` (the stored default belongs to ok's reported type). Non-trivial = the run had both a failing and a succeeding guarded evaluation, or a guarded expression whose type is a container/union. Distinct = distinct serialised (program, event) cases.";
+pub const RULE: &str = "Sub-check `default_value_by_kind` (exhaustive grid): for every non-empty subset of the nine value kinds, `ok, err = { to_int(.s); <if-chain over one literal per kind of the subset> }` is run with a failing and a succeeding first statement: on failure `ok` must hold the documented default of the single kind (\"\", 0, 0.0, false, null, [], {}, the epoch, the empty regex) or null when the kind is a union, `err` a string; on success `ok` the selected literal and `err` null. cases = generated programs dense in `a ?? b` (chains, nesting, effects on both sides) and `ok, err = e` (targets: variables, event and metadata paths, `_`) where a/e are typed calls and divisions fed by event fields that make them fail in roughly half of the cases, plus a generated event; real compiler+runtime vs reference interpreter: value of the expression, absence of the right operand's effects when the left succeeded, contents of ok/err (err is compared as 'a string' since message texts are not modelled; the default stored in ok is compared exactly with the documented default of the generator's known result type of e — 0, 0.0, \"\", false, [], {} — and left open when that type is not a single kind). Additionally whenever `.ok` is a target, its final value must be a member of the compiler's final type of `.ok` (the stored default belongs to ok's reported type). Non-trivial = the run had both a failing and a succeeding guarded evaluation, or a guarded expression whose type is a container/union. Distinct = distinct serialised (program, event) cases.";
 pub const NOTE: &str = "trusts the reference interpreter and the harness membership predicate; error message texts are not compared";
 
 fn classify(case: &ProgCase, a: &Agreed) -> (bool, Vec<&'static str>) {
@@ -87,7 +87,102 @@ fn check(case: &ProgCase) -> V {
     v
 }
 
+
+/// one case of the `default_value_by_kind` grid: the guarded expression is a block whose first
+/// statement fails (or not) and whose value is an if-chain over literals of the kinds in `mask`
+#[derive(Clone, Debug, serde::Serialize, serde::Deserialize)]
+pub struct DefaultCase {
+    pub mask: u16,
+    pub sel: usize,
+    pub fails: bool,
+}
+
+/// (literal source, the documented default of exactly that kind)
+const KIND_LITS: [(&str, &str); 9] = [
+    ("\"a\"", "\"\""),
+    ("7", "0"),
+    ("1.5", "0.0"),
+    ("true", "false"),
+    ("null", "null"),
+    ("[1]", "[]"),
+    ("{\"k\": 1}", "{}"),
+    ("t'2020-01-01T00:00:00Z'", "t'1970-01-01T00:00:00Z'"),
+    ("r'x'", "r''"),
+];
+
+fn default_cases() -> Vec<DefaultCase> {
+    let mut out = Vec::new();
+    for mask in 1u16..(1 << KIND_LITS.len()) {
+        let n = mask.count_ones() as usize;
+        // every failing case; successful runs for the first and last member
+        out.push(DefaultCase { mask, sel: 0, fails: true });
+        out.push(DefaultCase { mask, sel: 0, fails: false });
+        if n > 1 {
+            out.push(DefaultCase { mask, sel: n - 1, fails: true });
+            out.push(DefaultCase { mask, sel: n - 1, fails: false });
+        }
+    }
+    out
+}
+
+fn check_default(c: &DefaultCase) -> V {
+    let members: Vec<usize> = (0..KIND_LITS.len()).filter(|i| c.mask & (1 << i) != 0).collect();
+    let mut chain = String::new();
+    for (j, m) in members.iter().enumerate() {
+        if j + 1 == members.len() {
+            if j == 0 {
+                chain.push_str(KIND_LITS[*m].0);
+            } else {
+                chain.push_str(&format!("else {{ {} }}", KIND_LITS[*m].0));
+            }
+        } else {
+            chain.push_str(&format!("{}if .sel == {j} {{ {} }} ", if j == 0 { "" } else { "else " }, KIND_LITS[*m].0));
+        }
+    }
+    let src = format!("ok, err = {{ to_int(.s); {chain} }}\n[ok, err]\n");
+    let res = match vrlx::compile(&src) {
+        Ok(r) => r,
+        Err(d) => return V::fail(format!("grid program must compile: {}\n{src}", vrlx::diag_summary(&d))),
+    };
+    let event = format!("{{\"s\": {}, \"sel\": {}}}", if c.fails { "\"x\"" } else { "\"5\"" }, c.sel);
+    let ev: vrl::value::Value = serde_json::from_str::<serde_json::Value>(&event).expect("json").into();
+    let out = vrlx::run(&res.program, ev, vrlx::empty_object());
+    let vrlx::End::Ok(vrl::value::Value::Array(pair)) = &out.end else {
+        return V::fail(format!("`ok, err = ..` must not end the program: {:?}\n{src}", out.end));
+    };
+    let want_src = if c.fails {
+        if members.len() == 1 { KIND_LITS[members[0]].1 } else { "null" }
+    } else {
+        KIND_LITS[members[c.sel]].0
+    };
+    let want = match vrlx::eval(want_src, &vrlx::empty_object()).map(|o| o.end) {
+        Ok(vrlx::End::Ok(v)) => v,
+        other => return V::fail(format!("harness: cannot evaluate expectation {want_src}: {other:?}")),
+    };
+    let same = |a: &vrl::value::Value, b: &vrl::value::Value| match (a, b) {
+        (vrl::value::Value::Regex(x), vrl::value::Value::Regex(y)) => x.as_str() == y.as_str(),
+        _ => a == b,
+    };
+    if !same(&pair[0], &want) {
+        return V::fail_sig(
+            "c08:default-by-kind",
+            format!(
+                "`ok` holds {} but {} is expected ({})\n--- program:\n{src}--- event: {event}",
+                pair[0],
+                want,
+                if !c.fails { "the guarded expression succeeded" } else if members.len() == 1 { "documented default of the expression's single kind" } else { "the expression's kind is a union: documented default null" }
+            ),
+        );
+    }
+    let err_ok = if c.fails { pair[1].is_bytes() } else { pair[1].is_null() };
+    if !err_ok {
+        return V::fail_sig("c08:default-by-kind-err", format!("`err` holds {} (guarded expression {})\n--- program:\n{src}--- event: {event}", pair[1], if c.fails { "failed" } else { "succeeded" }));
+    }
+    V::pass().nontrivial(true).class_if(c.fails, "guarded_failed").class_if(!c.fails, "guarded_succeeded").class_if(members.len() > 1, "union_kind").class_if(members.len() == 1, "single_kind")
+}
+
 pub fn run(r: &mut Run) {
+    r.enumerate("default_value_by_kind", default_cases(), check_default);
     let base = progdiff::base_preset(r);
     let preset = Preset { coalesce: 10, infallible_assign: 10, closures: 2, short_circuit: 1, dels: 1, ..base };
     r.sub("coalesce_and_infallible_assign", 200_000, 10_000_000, move || proggen::strategy(preset), check);
